@@ -118,12 +118,16 @@ def consumer_kind(prog, name, k, stack=()):
         return "unknown"
     if is_release(name):
         return "consume"
+    if name.endswith("_ref"):
+        return "borrow"       # hands back a *new* reference; the caller keeps its own
     m = re.match(r"^\w+List_(append|insertAt|replaceAt)$", name)
     if m:
         return "consume" if k >= 1 else "borrow"
     if re.match(r"^\w+List_(length|elementAt|find|indexOf|remove|sort|foldl)$", name):
         return "borrow"
-    if key in stack or len(stack) > 5:
+    if key in stack:
+        return "borrow"       # a call cycle by itself keeps nothing (greatest fixed point)
+    if len(stack) > 8:
         return "unknown"
     fns = prog.functions.get(name, [])
     if not fns:
@@ -247,6 +251,11 @@ def _value_kinds(prog, fn, b, i, e, stack):
             return {"own"}
         return {"unknown"}
     if k == "mem":
+        # `*out = obj->field; obj->field = NULL;` moves the object out of its holder
+        fk = lvalue_key(e, fn)
+        for b2, i2, n2 in fn.nodes():
+            if n2.get("k") == "asg" and lvalue_key(n2["l"], fn) == fk and is_null(fn.resolve(strip(n2["r"]))):
+                return {"own"}
         return {"borrow"}
     if k == "var":
         if e["s"] == "param":
@@ -414,8 +423,14 @@ def _events(prog, fn, el, v, sv, assigned=()):
                     else:
                         ev.append(("borrow",))
             elif is_var(r, v) or (isinstance(r, dict) and r.get("k") == "cast" and is_var(r, v)):
+                from .model import base_var
+                bv = base_var(l, fn)
                 if l.get("k") == "var" and l["s"] == "local":
                     ev.append(("unknown", "aliased by local %s" % l["n"]))
+                elif bv is not None and bv.get("n") == v:
+                    pass        # back-pointer stored inside the object itself (o->cb.ctx = o)
+                elif bv is not None and bv.get("s") == "local" and "*" not in bv.get("t", "*") and "->" not in (lvalue_key(l, fn) or "->"):
+                    pass        # stored into a field of a local aggregate (context.signature = clone): stays in this function
                 else:
                     ev.append(("fieldstore", lvalue_key(l, fn)))
                     ev.append(("transfer",))
@@ -539,7 +554,13 @@ def _analyse_var(prog, fn, v, sv, rets):
                                                             % (x[1], v, vs1[1], v), x[2], vs1[1]))
                                 new_states.append((s1, F, acq1, used1))
                             elif vs1 == T:
-                                new_states.append((s1, T, acq1, used1))
+                                f = ("after-transfer", x[1], x[2])
+                                if f not in reported:
+                                    reported.add(f)
+                                    findings.append(Finding("release-after-transfer", fn, v, "%s(%s) although %s was stored through an "
+                                                            "out-parameter / into an object on this path and not set to NULL: the new holder "
+                                                            "keeps a pointer to freed memory" % (x[1], v, v), x[2], acq1))
+                                new_states.append((s1, F, acq1, used1))
                             else:
                                 new_states.append((s1, vs1, acq1, used1))
                     states = new_states
